@@ -502,7 +502,8 @@ impl<'a> Runner<'a> {
                     for t in nl.clone() {
                         let pt = self.ev(&t)?;
                         if pt.len() >= 8 {
-                            let hit = pt.windows(8).any(|w| outbuf.windows(8).any(|o| o == w));
+                            let set: std::collections::HashSet<&[u8]> = pt.windows(8).collect();
+                            let hit = outbuf.windows(8).any(|o| set.contains(o));
                             if hit {
                                 self.viol(i, op, "plaintext_leak", "no 8-byte run of the rejected message's plaintext in the output buffer".into(),
                                           format!("output buffer ({} bytes) contains plaintext of {}", outbuf.len(), t.to_string().chars().take(60).collect::<String>()), &cause);
@@ -801,6 +802,9 @@ impl<'a> Runner<'a> {
             },
             Ok(Ok(h)) => {
                 self.eps.insert(id.to_string(), Endpoint::Hs(Box::new(h)));
+                if eres == "any" {
+                    return Ok(true);
+                }
                 if eres != "ok" {
                     self.viol(i, "build", "result", format!("Err{}", exp["kinds"]), "Ok".into(), &cause);
                     return Ok(false);
@@ -810,6 +814,9 @@ impl<'a> Runner<'a> {
             },
             Ok(Err(e)) => {
                 let k = err_kind(&e);
+                if eres == "any" {
+                    return Ok(false);
+                }
                 if eres == "ok" {
                     self.viol(i, "build", "result", "Ok".into(), format!("Err({k})"), &cause);
                     return Ok(false);
